@@ -37,6 +37,29 @@ CHECKS = {
              "branches); relation monitors on the library's own outputs (symmetry, re-referencing, exact zeros, Isc=Voc/Zth, load test through "
              "the library's own solver).",
         design='5/C06', technique='runtime oracle vs exact reference + relation monitors between observed executions'),
+    'C04': dict(
+        text="Relation monitor between library executions: the solution with all sources scaled by a random complex factor, the sum of the "
+             "solutions of source groups produced by the library's own zeroing operations (shared keep list), each zeroing operation on its own, "
+             "and the all-deactivated network are compared with the full solution (physical current convention), on generated well-posed networks.",
+        design='5/C04', technique='metamorphic relation monitor over pairs/sums of observed executions'),
+    'C05': dict(
+        text="Invariant monitor on every kind of solution object (network, DC, complex peak/RMS, time-domain on a grid, transient sample-wise): "
+             "Tellegen power balance in the stated convention, P against the same object's V and I, resistor/inductor/capacitor sign rules.",
+        design='5/C05', technique='invariant monitor (power balance, definition and sign rules) on observed solutions'),
+    'C10': dict(
+        text="Runtime oracle on the nodal state-space model: for every published source, every node potential / element voltage / element current "
+             "row and a 7-point frequency sweep incl. w=0, C(jwI-A)^-1B+D is compared with the exact phasor response of the reference circuit to that "
+             "source alone; state dimension, state identity rows, published source list and the circuit-level wrapper are checked; hostile names.",
+        design='5/C10', technique='runtime oracle: transfer function of the observed model vs exact reference responses'),
+    'C11': dict(
+        text="Invariant monitor on every state matrix produced for generated positive-element circuits (largest eigenvalue of W A + A^T W, spectral "
+             "abscissa) and trace monitor on transient runs (stored energy non-increasing after the inputs returned to zero).",
+        design='5/C11', technique='invariant monitor on hooked state matrices + energy trace monitor'),
+    'C12': dict(
+        text="Trace monitors on TransientSolution runs with per-source different piecewise-linear inputs: rest start, KCL at every node and sample, "
+             "sources follow their inputs, Ohm's law, agreement of the grids h and h/2, Simpson integral form of C dv/dt and L di/dt, an independent "
+             "trapezoidal companion-model reference (Richardson), settling to the exact DC solution.",
+        design='5/C12', technique='trace monitors + independent companion-model reference over recorded waveforms'),
 }
 
 NOT_YET = "check not built yet in this round (work in progress; see DESIGN.md section 5)"
